@@ -93,6 +93,9 @@ def build(s, log, state):
             state['in_fn'] = True
             raise_outcome(inj['fn'], state)
             state['fnOk'] = True
+            if inj.get('fin') == 'lclen' and state.get('ctx') is not None:
+                # a length of the user's own, in lower case
+                state['ctx'].transport.resp_headers['content-length'] = '5000'
             if inj['ser'] == 'exc':
                 return 'not-an-int'   # unserialisable for the eager XML serialisers
             return a + 1
@@ -340,6 +343,8 @@ def run(s):
             except Exception:
                 status[0] = -1
             ok = isinstance(st, str) and len(st) >= 4 and st[3] == ' '
+            if sum(1 for h in headers if isinstance(h, tuple) and len(h) == 2 and isinstance(h[0], str) and h[0].lower() == 'content-length') > 1:
+                ok = False          # two Content-Length headers: which one is the length?
             for h in headers:
                 if not (isinstance(h, tuple) and len(h) == 2 and isinstance(h[0], str) and isinstance(h[1], str)):
                     ok = False
